@@ -165,6 +165,10 @@ def minidom_collision(flat):
     vice versa).  Rewrites the expected tree the way that mechanism does, and nothing else."""
     out = []
     for e in flat:
+        if e[0] == "D" and ":" in e[1]:
+            # same family: minidom's DocumentType keeps only the part of the name after the first ':'
+            out.append(("D", e[1].split(":", 1)[1], e[2], e[3]))
+            continue
         if e[0] != "S" or len(e[3]) < 2:
             out.append(e)
             continue
